@@ -24,7 +24,7 @@ inductive Op
   | hold (ai : Nat) (v : Bool)              -- the application's consumers are (not) scheduled
   | outcome (ai : Nat) (o : String)         -- what the request handler will do
   | handler (k : Nat)                       -- the k-th started handler thread runs to completion
-  | ans (ai : Nat) (req : AMsg) (rc : Nat)  -- Application.send_answer(generate_answer(req, rc))
+  | ans (ai : Nat) (req : AMsg) (rc : Option Nat)  -- Application.send_answer(generate_answer(req, rc)); `none`: no Result-Code
   | reqBegin (ai : Nat) (m : AMsg)          -- Application.send_request up to the wait
   | reqEnd (ai : Nat) (hbh : Nat) (timeout : Nat)   -- … and after it
   | stopBegin (force : Bool)
